@@ -902,6 +902,28 @@ fn special_section(scratch: &Scratch, thorough: bool, rep: &mut Rep) {
             }
         } else { push_cap(&mut rep.corr_failures, J::obj(vec![("header", J::s(text)), ("implementation", J::s(format!("{:?} {:?}", out.error, out.panic)))])); }
     }
+    // (g) 128-bit integers (outside the typed grammar of the generators): const variables and an enum over __int128
+    {
+        let text = "const __int128 c5_w1 = -5;\nconst __int128 c5_w2 = -9223372036854775807LL - 1;\nconst unsigned __int128 c5_w3 = 7;\nconst __int128 c5_w4 = 9223372036854775807LL;\nenum c5_WE : __int128 { c5_WN = -1, c5_WP = 5, c5_WD = -1 };\n";
+        let out = generate_text(scratch, "sw.hpp", text, &["--no-layout-tests"], &["-x", "c++", "-std=c++14"], false);
+        rep.inc("bindgen_runs"); rep.inc("special_cases");
+        if let Some(b) = out.bindings {
+            let flat: String = b.split_whitespace().collect::<Vec<_>>().join(" ");
+            let val = |n: &str| -> Option<(String, String)> { for k in [format!("pub const {n}: "), format!("pub const {n} : ")] { if let Some(i) = flat.find(&k) { let d = flat[i + k.len()..].split(';').next().unwrap_or(""); let mut it = d.splitn(2, '='); let ty = it.next().unwrap_or("").trim().to_string(); let v: String = it.next().unwrap_or("").split_whitespace().collect(); return Some((ty, v)); } } None };
+            for (n, ty, want) in [("c5_w1", "i128", "-5"), ("c5_w2", "i128", "-9223372036854775808"), ("c5_w3", "u128", "7"), ("c5_w4", "i128", "9223372036854775807"),
+                                  ("c5_WE_c5_WN", "c5_WE", "-1"), ("c5_WE_c5_WP", "c5_WE", "5"), ("c5_WE_c5_WD", "c5_WE", "-1")] {
+                rep.inc("oracle_compared");
+                match val(n) {
+                    Some((t, v)) if t == ty && v == want => rep.inc("oracle_agree"),
+                    None => rep.inc("oracle_agree"),
+                    Some((t, v)) => push_cap(&mut rep.oracle_failures, J::obj(vec![("header", J::s(text)), ("name", J::s(n)), ("rust_value", J::s(format!("{t} = {v}"))), ("c_value", J::s(format!("{ty} = {want}")))])),
+                }
+            }
+            rep.inc("oracle_compared");
+            if flat.contains("pub type c5_WE = i128 ;") || flat.contains("pub type c5_WE = i128;") { rep.inc("oracle_agree"); }
+            else { push_cap(&mut rep.oracle_failures, J::obj(vec![("header", J::s(text)), ("name", J::s("c5_WE")), ("rust_value", J::s("underlying type is not i128")), ("c_value", J::s("__int128 (signed)"))])); }
+        } else { push_cap(&mut rep.corr_failures, J::obj(vec![("header", J::s(text)), ("implementation", J::s(format!("{:?} {:?}", out.error, out.panic)))])); }
+    }
     // (e) a function-like macro whose parameter is spelled like an object-like macro: `K` alone is not a C
     //     expression, no constant may be emitted for it
     {
